@@ -99,7 +99,12 @@ def symbolToDocumentSymbol (sm : SymMap) : SymbolId → Option DocumentSymbol
            children := defset.defList.toList.map fun d => recordToDocumentSymbol sm (sm.record d) }
   | .multiclass id =>
     let mc := sm.multiclass id
-    some { name := mc.name, typ := "multiclass", range := rangeOf mc.defineLoc, kind := .multiclass, children := [] }
+    let templateArgumentList := mc.nameToTemplateArg.toList.map fun e =>
+      let arg := sm.templateArg e.2
+      ({ name := arg.name, typ := arg.typ.toStr, range := rangeOf arg.defineLoc, kind := .templateArgument,
+         children := [] } : DocumentSymbol)
+    some { name := mc.name, typ := "multiclass", range := rangeOf mc.defineLoc, kind := .multiclass,
+           children := templateArgumentList }
   | _ => none
 
 /-- `document_symbol::exec` -/
@@ -275,8 +280,8 @@ def identifierNodeOf (idNode : Cursor) (allowIdentifier : Bool) : Option Cursor 
   | .Identifier => if allowIdentifier && idNode.here.isNode then some idNode else none
   | _ => none
 
-/-- `inlay_hint_class` -/
-def inlayHintClass (an : Analysis) (sm : SymMap) (cls : Record) (loc : FileRange) :
+/-- `inlay_hint_template_args`: hints for the positional arguments of a reference to a class or a multiclass -/
+def inlayHintTemplateArgs (an : Analysis) (templateArgNames : List String) (loc : FileRange) :
     Except String (Option (List InlayHint)) := do
   let root := an.ws.tree loc.file
   let idNode ← coveringElement root loc.start loc.stop
@@ -288,9 +293,13 @@ def inlayHintClass (an : Analysis) (sm : SymMap) (cls : Record) (loc : FileRange
     | _ => none) | return none
   let argRanges := ((Ast.argValueListArgValues argList).takeWhile fun a => a.kind == .PositionalArgValue).map
     fun a => a.start
-  let templateArgNames := cls.nameToTemplateArg.toList.map fun e => (sm.templateArg e.2).name
   return some ((argRanges.zip templateArgNames).map fun (start, name) =>
     { position := start, label := s!"{name}:", kind := .templateArg })
+
+/-- `inlay_hint_class` -/
+def inlayHintClass (an : Analysis) (sm : SymMap) (cls : Record) (loc : FileRange) :
+    Except String (Option (List InlayHint)) :=
+  inlayHintTemplateArgs an (cls.nameToTemplateArg.toList.map fun e => (sm.templateArg e.2).name) loc
 
 /-- `inlay_hint_record_field` -/
 def inlayHintRecordField (an : Analysis) (field : RecordField) (loc : FileRange) :
@@ -317,7 +326,8 @@ def inlayHintExec (an : Analysis) (file a b : Nat) : Except String (Option (List
   -- `pos_to_symbol_map.get(&loc.file)?`
   if !(pos.any fun e => e.1.file == file) then return none
   let mut hints : List InlayHint := []
-  for (l, gid) in symbolsInRange pos file a b do
+  -- every symbol of the file is looked at (`whole_file`); the hints are kept by their own position below
+  for (l, gid) in symbolsInRange pos file 0 (an.ws.tree file).stop do
     let symbolLoc : FileRange := ⟨file, l.start, l.stop⟩
     match sm.gidToSym[gid]? with
     | some (.record id) =>
@@ -325,6 +335,10 @@ def inlayHintExec (an : Analysis) (file a b : Nat) : Except String (Option (List
       if record.kind == .cls then
         if let some newHints ← inlayHintClass an sm record symbolLoc then
           hints := hints ++ newHints
+    | some (.multiclass id) =>
+      let names := (sm.multiclass id).nameToTemplateArg.toList.map fun e => (sm.templateArg e.2).name
+      if let some newHints ← inlayHintTemplateArgs an names symbolLoc then
+        hints := hints ++ newHints
     | some (.recordField id) =>
       if let some newHints ← inlayHintRecordField an (sm.recordField id) symbolLoc then
         hints := hints ++ newHints
